@@ -266,4 +266,67 @@ theorem declFromAscii_render (d : LDecl) (hok : d.ok = true) : declFromAscii d.r
   rw [pseudoAttrs_render _ _ (attrsOf_ok d hok) hwEnd _
     (by simp only [List.length_cons, List.length_append]; omega), firstEncoding_attrsOf]
 
+/-! ### The fuel of the loop is only a device -/
+
+theorem splitOnce_length (c : Char) : ∀ (s a b : Str), splitOnce c s = some (a, b) → a.length + b.length + 1 = s.length := by
+  intro s
+  induction s with
+  | nil => intro a b h; cases h
+  | cons x xs ih =>
+    intro a b h
+    rw [splitOnce] at h
+    split at h
+    · cases h; simp
+    · cases h2 : splitOnce c xs with
+      | none => rw [h2] at h; cases h
+      | some p =>
+        obtain ⟨a', b'⟩ := p
+        rw [h2] at h
+        cases h
+        have := ih a' b h2
+        simp only [List.length_cons]; omega
+
+theorem trimStart_length_le (s : Str) : (trimStart s).length ≤ s.length :=
+  (List.dropWhile_sublist _).length_le
+
+/-- The fuel of `pseudoAttrs` is irrelevant once it exceeds the length of the string. -/
+theorem pseudoAttrs_fuel : ∀ (f g : Nat) (s : Str), s.length < f → s.length < g → pseudoAttrs f s = pseudoAttrs g s := by
+  intro f
+  induction f with
+  | zero => intro g s h; exact absurd h (Nat.not_lt_zero _)
+  | succ f ih =>
+    intro g s hf hg
+    cases g with
+    | zero => exact absurd hg (Nat.not_lt_zero _)
+    | succ g =>
+      rw [pseudoAttrs, pseudoAttrs]
+      split
+      · rfl
+      · cases h1 : splitOnce '=' s with
+        | none => rfl
+        | some p =>
+          obtain ⟨name, after⟩ := p
+          have l1 := splitOnce_length _ _ _ _ h1
+          simp only []
+          cases h2 : trimStart after with
+          | nil => rfl
+          | cons q after1 =>
+            simp only []
+            have l2 : after1.length + 1 ≤ after.length := by
+              have := trimStart_length_le after
+              rw [h2] at this
+              simpa using this
+            split
+            · cases h3 : splitOnce q after1 with
+              | none => rfl
+              | some p2 =>
+                obtain ⟨value, after2⟩ := p2
+                have l3 := splitOnce_length _ _ _ _ h3
+                simp only []
+                split
+                · rfl
+                · have l4 := trimStart_length_le after2
+                  exact ih g _ (by omega) (by omega)
+            · rfl
+
 end XotModel.Bytes
